@@ -3,6 +3,7 @@
 patch="$1"; id="$2"; tier="${3:-quick}"
 cd /repo || exit 2
 git diff --quiet || { echo "/repo is dirty"; exit 2; }
+trap 'git -C /repo checkout -- .' EXIT INT TERM
 git apply "$patch" || { echo "patch does not apply"; exit 2; }
 cd /verif && timeout 1500 ./check "$id" --tier "$tier" --no-evidence > /tmp/try_mutant.out 2>&1
 rc=$?
